@@ -196,8 +196,10 @@ fn random_tree(rng: &mut Rng) -> Vec<SubGrid> {
     let lon_w = rng.int(-170, 100) as f64;
     let rows = 5 + rng.below(5);
     let mut subs = vec![SubGrid::random(rng, "ROOT", "NONE", lat_s, lon_w, 1.0, rows, 2 * n + 3)];
+    // children one degree wide: apart from each other, or side by side with shared meridians
+    let adjacent = rng.chance(0.5);
     for k in 1..n {
-        let c0 = 2 * k - 1;
+        let c0 = if adjacent { k } else { 2 * k - 1 };
         subs.push(SubGrid::random(rng, &format!("SUB{k}"), "ROOT", lat_s + 1.0, lon_w + c0 as f64, 0.25, 5, 5));
     }
     subs
@@ -264,6 +266,29 @@ fn faithful_ntv2(h: &H, idx: u64, rng: &mut Rng) {
                 }
             }
         }
+    }
+    // the lower (south and west) borders of a child belong to the child, also where a sibling's
+    // upper border runs along them
+    for s in subs.iter().filter(|s| s.parent != "NONE") {
+        let m = s.model();
+        for r in 1..s.rows - 1 {
+            let (lon, lat) = m.node_pos(r, 0);
+            h.eval(1);
+            let Some(got) = g.at(&Coor4D([lon, lat, 0.0, 0.0]), 0.0) else { continue };
+            for b in 0..2 {
+                let want = m.node(r, 0, b);
+                if !((got[b] - want).abs() <= 4.0 * f32_ulp(want.abs().max(1e-7))) {
+                    v(
+                        h,
+                        idx,
+                        "ntv2/node-on-the-west-border-of-a-child-not-taken-from-the-child",
+                        J::obj().set("subgrid", &s.name).set("row", r).set("band", b).set("decoded", got[b]).set("written_after_conventions", want).set("file_order", J::Arr(file_order.iter().map(|x| J::s(x.name.clone())).collect())),
+                    );
+                    return;
+                }
+            }
+        }
+        h.class("faithful/ntv2-child-border-nodes");
     }
     if other.is_err() {
         v(h, idx, "well-formed-ntv2-file-rejected", J::obj().set("big_endian", !be));
